@@ -148,10 +148,11 @@ pub fn normalize(e: &Expr, top: bool) -> Expr {
             },
             t => t.clone(),
         };
-        // no two zero-or-more wildcards directly adjacent (would lex as `**` / parse error)
-        if t.is_zom() {
+        // no two *eager* zero-or-more wildcards directly adjacent (`**` lexes as a tree wildcard);
+        // `*$`, `$*`, `$$` stay as written (a rule violation the checker must reject)
+        if let Tok::Zom { lazy: false } = t {
             let prev = out.iter().rev().find(|p| !p.is_flag());
-            if prev.map_or(false, |p| p.is_zom()) {
+            if matches!(prev, Some(Tok::Zom { lazy: false })) {
                 continue;
             }
         }
